@@ -753,4 +753,130 @@ example : firstBad (fun r => r.all (fun c => decide (c < 58))) [[49, 50], [], [5
     firstBad (fun c => decide (c < 58)) [[49, 50], [], [51, 120, 52], [120]].flatten = some 3 ∧
     rowOfOffsetRagged [2, 0, 3, 1] 3 = 2 := by decide
 
+/-! ### a truncated last record: the end-of-file test (fix a0fa304) -/
+
+/-- the reported line depends only on the sequence of entries, not on how it is cut into chunks -/
+theorem reported_flatten_invariant (n marker : Nat) (cp : Bool) (hcp : cp = true → 2 < n)
+    (cs₁ cs₂ : List (List Entry)) (h : cs₁.flatten = cs₂.flatten) (L : Nat) :
+    reported n marker cp L cs₁ = reported n marker cp L cs₂ := by
+  by_cases hall : ∀ e ∈ cs₁.flatten, entryOK marker cp e = true
+  · rw [(reported_none_iff n marker cp cs₁ L).mpr hall, (reported_none_iff n marker cp cs₂ L).mpr (h ▸ hall)]
+  · obtain ⟨good, bad, rest, hE, hgood, hb⟩ := exists_first_bad (entryOK marker cp) cs₁.flatten hall
+    obtain ⟨o, ho⟩ : ∃ o, validateChunk n marker cp [bad] = some o := by
+      cases hv : validateChunk n marker cp [bad] with
+      | some o => exact ⟨o, rfl⟩
+      | none =>
+        have := (reported_none_iff n marker cp [[bad]] 0).mp (by simp [reported, hv])
+        exact absurd (this bad (by simp)) (by simpa using hb)
+    rw [line_number_kline n marker cp hcp bad o ho cs₁ good rest L hE hgood,
+        line_number_kline n marker cp hcp bad o ho cs₂ good rest L (h ▸ hE) hgood]
+
+theorem reported_single (n marker : Nat) (cp : Bool) (es : List Entry) :
+    reported n marker cp 0 [es] = validateChunk n marker cp es := by
+  unfold reported
+  cases validateChunk n marker cp es with
+  | some l => simp
+  | none => simp [reported]
+
+/-- a file whose line count is a whole number of records leaves nothing behind -/
+theorem leftover_wf (n : Nat) (hn : 0 < n) (mode : Mode) (file : Bytes) (hwf : n ∣ countNL (norm file))
+    (k : Nat) (hk : 0 < k) : leftoverOf n mode file k = [] := by
+  unfold leftoverOf
+  rw [(readAll_bytes_kLine n hn mode file hwf k hk).1]
+  simp
+
+/-- **C15.readValidateT_wf** — on files made of whole records the end-of-file test never fires: the repaired reader
+behaves exactly like the reader the other theorems are about. -/
+theorem readValidateT_wf (n : Nat) (hn : 0 < n) (marker : Nat) (cp : Bool) (mode : Mode) (file : Bytes)
+    (hwf : n ∣ countNL (norm file)) (k : Nat) (hk : 0 < k) :
+    readValidateT n marker cp mode file k = readValidate n marker cp mode file k := by
+  unfold readValidateT
+  rw [leftover_wf n hn mode file hwf k hk]
+  cases readValidate n marker cp mode file k <;> simp [isBlank]
+
+/-- **C15.truncated_never_table** — whenever bytes other than line ends are left after the last delivered record,
+chunked reading does not complete: either a violation in the complete records is reported, or the truncated record
+is, at the line where it starts (= the number of lines delivered). For every chunk size and mode; no hypothesis on
+the file. -/
+theorem truncated_never_table (n marker : Nat) (cp : Bool) (mode : Mode) (file : Bytes) (k : Nat)
+    (hleft : isBlank (leftoverOf n mode file k) = false) :
+    readValidateT n marker cp mode file k ≠ none ∧
+    (readValidate n marker cp mode file k = none →
+      readValidateT n marker cp mode file k = some (countNL (readAll (Fmt.kLine n) true mode file k).flatten)) := by
+  unfold readValidateT
+  cases readValidate n marker cp mode file k with
+  | some l => simp
+  | none => simp [hleft]
+
+/-- what `f.read()` delivers of a file with at least one record holds the largest whole number of records -/
+theorem whole_delivered_lines (n : Nat) (hn : 0 < n) (c : Bytes) (hc : n ≤ countNL c) :
+    countNL (c.take ((Fmt.kLine n).cutLen c)) = countNL c - countNL c % n := by
+  have hm := mult_facts n (countNL c) hn hc
+  exact (prefix_spec c _ hm.1 hm.2.1).2.2.2
+
+/-- **C15.whole_truncated** — `f.read()` of a file that ends inside a record (bytes other than line ends after the
+last complete record) whose complete records are all valid: the error names line `⌊lines / n⌋ · n`, the first line
+of the truncated record. -/
+theorem whole_truncated (n : Nat) (hn : 0 < n) (marker : Nat) (cp : Bool) (file : Bytes)
+    (hc : n ≤ countNL (norm file))
+    (hleft : isBlank ((norm file).drop ((Fmt.kLine n).cutLen (norm file))) = false)
+    (hgood : validateChunk n marker cp (entriesOf n ((norm file).take ((Fmt.kLine n).cutLen (norm file)))) = none) :
+    wholeValidateT n marker cp file = .ok (some (countNL (norm file) / n * n)) := by
+  have hne : (norm file).isEmpty = false := by
+    cases h : norm file with
+    | nil => rw [h] at hc; simp [countNL] at hc; omega
+    | cons x xs => rfl
+  have hcut : (Fmt.kLine n).cutLen (norm file) ≤ (norm file).length := by
+    have hm := mult_facts n (countNL (norm file)) hn hc
+    exact (prefix_spec (norm file) _ hm.1 hm.2.1).2.1
+  have hlen : ((norm file).take ((Fmt.kLine n).cutLen (norm file))).length = (Fmt.kLine n).cutLen (norm file) := by
+    rw [List.length_take]; omega
+  unfold wholeValidateT
+  simp only [hne, Bool.false_eq_true, ↓reduceIte, Nat.not_lt.mpr hc, hgood, hlen, hleft]
+  rw [whole_delivered_lines n hn (norm file) hc]
+  have := Nat.div_add_mod (countNL (norm file)) n
+  have h2 : countNL (norm file) / n * n = n * (countNL (norm file) / n) := Nat.mul_comm _ _
+  congr 2
+  omega
+
+/-- **C15.whole_eq_chunks** — on files made of whole records `f.read()` and `read_chunks` with every chunk size and
+mode give the same outcome (success, or the same reported line), whatever violations the records contain. -/
+theorem whole_eq_chunks (n : Nat) (hn : 0 < n) (marker : Nat) (cp : Bool) (hcp : cp = true → 2 < n) (mode : Mode)
+    (file : Bytes) (hwf : n ∣ countNL (norm file)) (hc : n ≤ countNL (norm file)) (k : Nat) (hk : 0 < k) :
+    wholeValidateT n marker cp file = .ok (readValidateT n marker cp mode file k) := by
+  rw [readValidateT_wf n hn marker cp mode file hwf k hk]
+  have hne : (norm file).isEmpty = false := by
+    cases h : norm file with
+    | nil => rw [h] at hc; simp [countNL] at hc; omega
+    | cons x xs => rfl
+  have hlast : (norm file).getLast? = some NL := by
+    unfold norm at hne ⊢
+    by_cases hf : file.isEmpty = true
+    · simp [hf] at hne
+    · simp only [hf]; exact addNL_getLast file
+  have hcut : (Fmt.kLine n).cutLen (norm file) = (norm file).length := by
+    show prefixThroughNL (countNL (norm file) - countNL (norm file) % n) (norm file) = _
+    rw [Nat.mod_eq_zero_of_dvd hwf, Nat.sub_zero]
+    exact prefix_all _ hlast
+  unfold wholeValidateT
+  simp only [hne, Bool.false_eq_true, ↓reduceIte, Nat.not_lt.mpr hc, hcut, List.take_length, List.drop_length]
+  have hflat := entries_chunks_kLine n hn mode file hwf k hk
+  have hinv := reported_flatten_invariant n marker cp hcp [entriesOf n (norm file)]
+    ((readAll (Fmt.kLine n) true mode file k).map (entriesOf n))
+    (by unfold entriesOf; rw [hflat]; simp) 0
+  rw [reported_single] at hinv
+  unfold readValidate
+  rw [← hinv]
+  cases validateChunk n marker cp (entriesOf n (norm file)) <;> simp [isBlank]
+
+/-- non-vacuity: `@a/A/+/I/@b` (the file ends inside its second record) read whole and with chunk sizes 1–3, both
+modes: line 4; the same file made whole reads without error; a file ending in blank lines is accepted -/
+example : wholeValidateT 4 64 true [64,97,10,65,10,43,10,73,10,64,98,10] = .ok (some 4) ∧
+    readValidateT 4 64 true .seek [64,97,10,65,10,43,10,73,10,64,98,10] 1 = some 4 ∧
+    readValidateT 4 64 true .carry [64,97,10,65,10,43,10,73,10,64,98,10] 3 = some 4 ∧
+    readValidateT 4 64 true .seek [64,97,10,65,10,43,10,73,10,64,98] 2 = some 4 ∧
+    readValidateT 4 64 true .seek [64,97,10,65,10,43,10,73,10] 2 = none ∧
+    readValidateT 4 64 true .carry [64,97,10,65,10,43,10,73,10,10,13,10] 2 = none ∧
+    readValidateT 4 64 true .seek [64,97,10,65,10,73,10] 5 = some 0 := by decide
+
 end C15
